@@ -202,6 +202,17 @@ func (c *Ctx) script(class string) []string {
 			fmt.Sprintf("AddSig:%d", c.N/2), fmt.Sprintf("AddSig:%d", 9%c.N), fmt.Sprintf("AddSig:%d", 10%c.N)}
 	case "boundary-lifecycle": // every slot once, through to removal
 		return cat(toActing, []string{"Update", "Sig", fmt.Sprintf("AddSig:%d", c.N-1), "SetRegistered", "SetWithdrawing", "SetWithdrawn"})
+	// restarts: a staged update with signatures, the process restarts (new PersistRestorer, machine
+	// rebuilt from the store), then the staged update is replaced through the new persister
+	case "restart-discard-update":
+		return cat(toActing, []string{"Update", "Sig"}, c.someSigs(), []string{"Restart", "Discard", "Update", "Restart"})
+	case "restart-force":
+		return cat(toActing, []string{"Update", "Sig"}, c.someSigs(), []string{"Restart", "ForceUpdate", "Sig", "Restart", "ForceUpdate"})
+	case "restart-progress":
+		return cat(toActing, []string{"Update"}, c.someSigs(), []string{"SetRegistered", "Restart", "SetProgressing", "Sig"}, c.someSigs(),
+			[]string{"Restart", "SetProgressing", "Restart", "SetProgressed", "SetWithdrawing", "Restart", "SetWithdrawn"})
+	case "restart-random":
+		return cat([]string{"Init", "Sig", "Restart"}, c.sigAll()[1:], []string{"Restart", "EnableInit", "SetFunded", "Restart", "Update", "Sig", "Restart", "Update"})
 	case "init-resign":
 		return cat([]string{"Init"}, c.someSigs())
 	}
